@@ -1,11 +1,13 @@
 import Driver.Ops
 import Driver.VMDrv
+import Driver.Json
 open Driver
 
 def dispatch (line : String) : String :=
   match line.splitOn "\t" with
   | "ops" :: args => handleOps args
   | "vm" :: args => handleVM args
+  | "json" :: args => handleJson args
   | _ => "bad-op"
 
 partial def loop (h : IO.FS.Stream) (out : IO.FS.Stream) : IO Unit := do
